@@ -7,7 +7,7 @@
    at 0; the absolute value over C is Cabs z = |z|, the reciprocal Cinv.  Images are m x n for arbitrary m, n. *)
 From Coq Require Import Reals.
 From Coquelicot Require Import Complex.
-From LV Require Import Lib.Cis Model.Blur Proofs.BlurP Proofs.BlurC.
+From LV Require Import Lib.Cis Model.Blur Model.BlurEntry Proofs.BlurP Proofs.BlurC Proofs.BlurEven Proofs.BlurDeep.
 Local Open Scope Z_scope.
 
 (* (a) the three transfer functions have unit gain at zero frequency *)
@@ -163,3 +163,93 @@ Example C19_nonvacuous :
   is_ring CS /\ kernel_laws CS /\ (forall z : Z, @ke CS (zQ z) = k1)
   /\ nonneg_image img23 /\ asum img23 <> RtoC 0 /\ nr img23 = 2 /\ nc img23 = 3.
 Proof. split; [exact CS_ring|split; [exact CS_kernel|split; [exact CS_period|split; [apply img23_ok|split; [apply img23_ok|split; reflexivity]]]]]. Qed.
+
+(* ---------------------------------------------------------------------------------------------------------------
+   Deepening: np.fft.fftfreq as a map, symmetry of the multipliers, realness of the array handed to np.abs, and the
+   0/0 of the renormalisation *)
+
+(* np.fft.fftfreq(n)[k] = a/n with a the representative of k modulo n in [-(n//2), (n-1)//2]; the opposite frequency
+   sits at index refl n k = (n - k) mod n, except that the Nyquist sample of an even axis is its own partner *)
+Theorem C19_fftfreq_characterisation :
+  forall n k : Z, 0 < n -> 0 <= k < n ->
+  fftfreq n k = tq (fftfreq_num n k) n
+  /\ - (n / 2) <= fftfreq_num n k <= (n - 1) / 2
+  /\ (fftfreq_num n k = k \/ fftfreq_num n k = k - n)
+  /\ 0 <= (n - k) mod n < n
+  /\ (2 * k <> n -> fftfreq n ((n - k) mod n) = (- fftfreq n k)%Qc)
+  /\ (2 * k = n -> (n - k) mod n = k).
+Proof. exact fftfreq_characterisation. Qed.
+Print Assumptions C19_fftfreq_characterisation.
+
+(* K[-u mod m, -v mod n] = K[u, v]: for the jitter multiplier unconditionally, for the pixel multiplier when sinc is
+   even, on EVERY shape (the Nyquist samples of even axes are their own partners); for the smear multiplier at every
+   sample that is not on a Nyquist row or column - there the partner is missing ("unpaired Nyquist sample") *)
+Theorem C19_multipliers_even :
+  forall (S : Scalar) (sinc gauss : Qc -> S) (os scale d sn cs ps : Qc) (m n i j : Z),
+  0 < m -> 0 < n -> 0 <= i < m -> 0 <= j < n ->
+  get (jitter_mul gauss scale ps os m n) ((m - i) mod m) ((n - j) mod n) = get (jitter_mul gauss scale ps os m n) i j
+  /\ ((forall q : Qc, sinc (- q)%Qc = sinc q) ->
+      get (pixel_mul sinc os m n) ((m - i) mod m) ((n - j) mod n) = get (pixel_mul sinc os m n) i j
+      /\ (2 * i <> m -> 2 * j <> n ->
+          get (smear_mul sinc d sn cs ps os m n) ((m - i) mod m) ((n - j) mod n) = get (smear_mul sinc d sn cs ps os m n) i j)).
+Proof. exact multipliers_even. Qed.
+Print Assumptions C19_multipliers_even.
+
+(* a real image and a real, even multiplier give a REAL array ifft2(fft2 img * K): ring-generic *)
+Theorem C19_real_output_of_even_multiplier :
+  forall (S : Scalar), is_ring S -> kernel_laws S -> (forall z : Z, @ke S (zQ z) = k1) -> conj_laws S ->
+  (forall q : Qc, @kconj S (kofq q) = kofq q) ->
+  forall (K img : arr S) (i j : Z), 0 <= i < nr img -> 0 <= j < nc img ->
+  (forall x y, 0 <= x < nr img -> 0 <= y < nc img -> kconj (get img x y) = get img x y) ->
+  (forall u v, 0 <= u < nr img -> 0 <= v < nc img -> kconj (get K u v) = get K u v) ->
+  (forall u v, 0 <= u < nr img -> 0 <= v < nc img ->
+     get K ((nr img - u) mod nr img) ((nc img - v) mod nc img) = get K u v) ->
+  kconj (get (ifft2 (force (amul (fft2 img) K))) i j) = get (ifft2 (force (amul (fft2 img) K))) i j.
+Proof. exact conv_real. Qed.
+Print Assumptions C19_real_output_of_even_multiplier.
+
+(* over C: what pixel and jitter hand to np.abs is real on every shape, what smear hands to it is real on odd x odd
+   frames (no Nyquist sample) *)
+Theorem C19_preabs_real :
+  forall (sinc gauss : Qc -> C), (forall q, Cconj (sinc q) = sinc q) -> (forall q, Cconj (gauss q) = gauss q) ->
+  (forall q : Qc, sinc (- q)%Qc = sinc q) ->
+  forall (img : arr CS) (os scale ps d sn cs : Qc) (i j : Z),
+  (forall x y, 0 <= x < nr img -> 0 <= y < nc img -> Cconj (get img x y) = get img x y) ->
+  0 <= i < nr img -> 0 <= j < nc img ->
+  Cconj (get (conv (@pixel_mul CS sinc os (nr img) (nc img)) img) i j)
+    = get (conv (@pixel_mul CS sinc os (nr img) (nc img)) img) i j
+  /\ Cconj (get (conv (@jitter_mul CS gauss scale ps os (nr img) (nc img)) img) i j)
+    = get (conv (@jitter_mul CS gauss scale ps os (nr img) (nc img)) img) i j
+  /\ (Z.odd (nr img) = true -> Z.odd (nc img) = true ->
+      Cconj (get (conv (@smear_mul CS sinc d sn cs ps os (nr img) (nc img)) img) i j)
+      = get (conv (@smear_mul CS sinc d sn cs ps os (nr img) (nc img)) img) i j).
+Proof. exact preabs_real. Qed.
+Print Assumptions C19_preabs_real.
+
+(* out * sum(img) / sum(out) as executed: [None] = the all-NaN frame of a 0/0.  For non-negative images and a multiplier
+   of unit DC gain the division is undefined EXACTLY on the all-zero frame; otherwise the result is the renormalised
+   blur and has the total of the image (nothing else can happen) *)
+Theorem C19_renormalisation_defined_iff_nonzero :
+  forall (K img : arr CS), 0 < nr img -> 0 < nc img -> get K 0 0 = RtoC 1 ->
+  (forall i j, 0 <= i < nr img -> 0 <= j < nc img -> Cnn (get img i j)) ->
+  (@renorm_checked CS Cis0 Cinv (@blur CS Cabs K img) img = None
+   <-> forall i j, 0 <= i < nr img -> 0 <= j < nc img -> get img i j = RtoC 0)
+  /\ (@renorm_checked CS Cis0 Cinv (@blur CS Cabs K img) img <> None ->
+      @renorm_checked CS Cis0 Cinv (@blur CS Cabs K img) img = Some (@renorm CS Cinv (@blur CS Cabs K img) img)
+      /\ asum (@renorm CS Cinv (@blur CS Cabs K img) img) = asum img).
+Proof. exact renorm_defined_iff. Qed.
+Print Assumptions C19_renormalisation_defined_iff_nonzero.
+
+(* non-vacuity of the new hypotheses: C has the conjugation laws, img23 is a real non-negative non-zero image, the
+   constant functions 1 are real even "sinc"/"gauss", and 2 x 3 has a Nyquist column but 3 x 5 has none *)
+Example C19_deepen_nonvacuous :
+  conj_laws CS /\ (forall q : Qc, @kconj CS (kofq q) = kofq q)
+  /\ (forall x y, 0 <= x < nr img23 -> 0 <= y < nc img23 -> Cconj (get img23 x y) = get img23 x y)
+  /\ (exists k, 0 <= k < 4 /\ 2 * k = 4 /\ (4 - k) mod 4 = k) /\ Z.odd 3 = true /\ Z.odd 5 = true
+  /\ Cis0 (RtoC 0) = true /\ Cis0 (asum img23) = false.
+Proof. split; [exact CS_conj|split; [exact CS_conj_q|split]].
+  - intros x y _ _. cbn [img23 get]. unfold Cconj, RtoC. cbn. f_equal. ring.
+  - split; [exists 2; repeat split; lia|]. repeat split.
+    + apply Cis0_true. reflexivity.
+    + destruct (Cis0 (asum img23)) eqn:E; [|reflexivity]. apply Cis0_true in E. now apply img23_ok in E.
+Qed.
